@@ -338,7 +338,14 @@ def chk_automatch_geo(c):
             owner[gid] = tuple(x.tolist())
 
 
-CHECKS = {'ring2': chk_ring2, 'automatch_geo': chk_automatch_geo, 'order': chk_order, 'history': chk_history, 'split': chk_split, 'automatch': chk_automatch}
+def chk_bc(c):
+    """multipatch boundary data address the glued dofs: the check shared with C10 (conditions listed in any order, patches revisited,
+    every patch numbering; oracle: one global dof per distinct dof position, prescribed values = boundary data on every listed face)"""
+    from . import C10 as _c10
+    return _c10.chk_mp_bc(c)
+
+
+CHECKS = {'bc': chk_bc, 'ring2': chk_ring2, 'automatch_geo': chk_automatch_geo, 'order': chk_order, 'history': chk_history, 'split': chk_split, 'automatch': chk_automatch}
 
 
 def generate(tier, rng):
@@ -420,6 +427,9 @@ def generate(tier, rng):
         for perm in perms[:(4 if quick else 30)]:
             yield 'automatch', {'grid': list(grid), 'perm': list(perm), 'p': 2, 'flip': grid == (2, 1)}
 
+    import itertools as _it
+    for k, perm in enumerate(list(_it.permutations(range(3)))[::2] + list(_it.permutations(range(4)))[::5]):
+        yield 'bc', {'seed': 20 + k, 'p': 1 + k % 3, 'n': [3 + k % 2, 4], 'shape': 'L' if len(perm) == 3 else 'square', 'ncond': 8, 'hetero': bool(k % 2), 'perm': list(perm)}
 
 if __name__ == '__main__':
     import sys
